@@ -17,7 +17,7 @@ func init() {
 				Reach:     []string{"history through the gateway"},
 				Functions: []string{"(*Gateway).queryHandler", "planner.(*CachedPlanner).Plan", "planner.(*CachedPlanner).hash", "planner.SequentialPlanner.Plan", "executor.ParallelExecutor.Execute", "planner.ScrubFields.Clean"}},
 			{Name: "cache-mixed-introspection", Pkg: ".", Files: []string{"root/fed.go", "root/c01.go", "root/c14g.go"}, Entry: "VerifCacheGateway", Mode: "seq",
-				Quick: map[string]int{"hmax": 2, "mixedpool": 1, "maporder": 1}, Thorough: map[string]int{"hmax": 3, "mixedpool": 1, "maporder": 2},
+				Quick: map[string]int{"hmax": 2, "mixedpool": 1, "maporder": 1}, Thorough: map[string]int{"hmax": 3, "mixedpool": 1, "maporder": 1, "budget_s": 7200},
 				Reach:     []string{"history through the gateway"},
 				Functions: []string{"(*Gateway).queryHandler", "(*Gateway).parseIntrospectionQuery", "planner.(*CachedPlanner).Plan", "planner.routeSelectionSet"}},
 			{Name: "introspection-history-on-cached-plans", Pkg: ".", Files: []string{"root/fed.go", "root/c01.go", "root/c16.go"}, Entry: "VerifIntrospectionHistory", Mode: "seq",
